@@ -1,6 +1,56 @@
-(* Properties_C01.v — placeholder until the proofs land; see MsgProofs.v *)
+(* Properties_C01.v — C01: encoding writes exactly the SBE wire image.
+   Statements only; proofs in BytesFacts.v, LayoutProofs.v, MsgProofs.v. *)
 From Coq Require Import ZArith List.
-From Sbepp Require Import Bytes BytesFacts.
-Theorem C01_codec_round_trip : forall be w x, dec be (enc be w x) = (x mod 256 ^ Z.of_nat w)%Z.
-Proof. exact dec_enc. Qed.
-Print Assumptions C01_codec_round_trip.
+From Sbepp Require Import CInt Bytes BytesFacts Msg Layout Wire MsgSpec LayoutProofs MsgProofs.
+Import ListNotations.
+Local Open Scope Z_scope.
+
+(* the byte order primitives: both C++ implementations of set_primitive write
+   the schema byte order image of the value, for every width *)
+Theorem C01_set_primitive_bitcast : forall be w x, set_primitive_bitcast be w x = enc be w x.
+Proof. exact set_primitive_bitcast_spec. Qed.
+Print Assumptions C01_set_primitive_bitcast.
+
+Theorem C01_set_primitive_memcpy : forall be w x, set_primitive_memcpy be w x = enc be w x.
+Proof. exact set_primitive_memcpy_spec. Qed.
+Print Assumptions C01_set_primitive_memcpy.
+
+Theorem C01_big_endian_is_reversed_little : forall w x, enc true w x = rev (enc false w x).
+Proof. exact enc_be_is_rev_le. Qed.
+Print Assumptions C01_big_endian_is_reversed_little.
+
+(* field offsets computed by the validator are the SBE ones: explicit offset
+   honoured, otherwise end of the predecessor; constants take no space *)
+Theorem C01_offsets_are_sbe : stmt_layout_sbe_offsets.
+Proof. exact layout_sbe_offsets. Qed.
+Print Assumptions C01_offsets_are_sbe.
+
+(* ... and never overlap or leave the block *)
+Theorem C01_fields_disjoint_in_block : stmt_layout_no_overlap.
+Proof. exact layout_no_overlap. Qed.
+Print Assumptions C01_fields_disjoint_in_block.
+
+Theorem C01_block_length_covers_fields : stmt_block_length_covers.
+Proof. exact block_length_covers. Qed.
+Print Assumptions C01_block_length_covers_fields.
+
+Theorem C01_composite_members_in_order : stmt_member_offsets_in_order.
+Proof. exact member_offsets_in_order. Qed.
+Print Assumptions C01_composite_members_in_order.
+
+(* locality: a field setter (at any path) changes exactly the bytes of the
+   located field; every other byte keeps its value; what was written reads back *)
+Theorem C01_set_field_local : stmt_set_field_frame.
+Proof. exact set_field_frame. Qed.
+Print Assumptions C01_set_field_local.
+
+(* resize changes only numInGroup *)
+Theorem C01_group_resize_local : stmt_group_resize_frame.
+Proof. exact group_resize_frame. Qed.
+Print Assumptions C01_group_resize_local.
+
+(* NOT YET PROVED (kept visible): the script-level statement
+     run_script (in_order_script w) bg = Some (over_message be m w bg)
+   for every accepted message table m, value tree w and background bg with
+   |bg| >= over_size; it is decided by the correspondence only (Wire.over_message
+   is the reference encoder the implementation is compared with byte for byte). *)
